@@ -4,19 +4,19 @@ CONSTANTS Design = "copy"
           Creation = "defaults"
           Modes = {"queue"}
           NRec = 3
-          Sizes = {1, 60, 200}
+          Sizes = {1, 200}
           Times = {1, 7}
           MaxBufs = {0, 100}
           MaxWaits = {5}
           ZipMins = {0, 100}
-          QCaps = {1, 2}
+          QCaps = {2}
           Keeps = {TRUE}
           MaxDirect = 2
           Reconfig = 0
           EarlyFlush = FALSE
           WithDefaults = TRUE
           Bad = TRUE
-          CtxKinds = {"none", "ctx", "both"}
+          CtxKinds = {"ctx", "both"}
           IdleSlack = 0
           MinPeriod = 1
 INVARIANTS ExactlyOnceInOrder CountMatches Decodable ZipIff DefaultsInForce HandedOverIsImmutable IdleWaitBounded
